@@ -3,3 +3,11 @@ pub open spec fn node_ok(d: PathS, n: Ignore) -> bool {
     (n.gitignore.root is None || n.gitignore.root == Some(d)) && (n.builder is Some ==> n.builder->Some_0.root == d)
 }
 pub open spec fn trie_ok(m: Map<PathS, Ignore>) -> bool { forall|d: PathS| m.contains_key(d) ==> node_ok(d, #[trigger] m[d]) }
+// the pattern lines of an ignore file's text: every line that is neither blank nor a comment, in order
+pub open spec fn pattern_lines(ls: Seq<LineS>, n: int) -> Seq<LineS> decreases n {
+    if n <= 0 { Seq::empty() } else if line_blank(ls[n - 1]) || line_comment(ls[n - 1]) { pattern_lines(ls, n - 1) } else { pattern_lines(ls, n - 1).push(ls[n - 1]) }
+}
+// what the directory's builder already held (nothing if the directory had no matcher, or one without a builder)
+pub open spec fn prior_lines(m: Map<PathS, Ignore>, d: PathS) -> Seq<LineS> {
+    if m.contains_key(d) && m[d].builder is Some { builder_lines(m[d].builder->Some_0) } else { Seq::empty() }
+}
